@@ -100,6 +100,31 @@ CLAIMED.update({
             "TLA+ model checking (TLC) of Dot.tla + impl->spec trace validation of read-back exports"),
 })
 
+CLAIMED.update({
+    "C15": ("3.C15", "Puzzles!QueensSolutions is the reference definition. For n = 1..7 (thorough 1..10) the real generator output is parsed by the real "
+            "parser and MC_Models decides exact model-set equality: TLC's pruned search machine over partial assignments visits every model "
+            "(invariant Sound: it is a placement of n non-attacking queens; Lemma: three-valued evaluation agrees with full evaluation) and "
+            "ASSUME Complete evaluates the tree under every reference solution. For n up to 12 (thorough 24) Trace_Puzzle checks the structural "
+            "conditions that imply equality (attack-pair coverage, '= 1' list per row and column, no list joins non-attacking cells); rsbdd -t -ft "
+            "on the generated file must list exactly the solutions (n = 4, 5); shape check at n = 256.",
+            "TLA+ model checking (TLC search machine) of the emitted formula against the puzzle definition + trace validation"),
+    "C16": ("3.C16", "Puzzles!Cliques/MaxCliques with the direction semantics of -u. max_clique_gen is run on every edge list of <= 2 records (sample of 3; "
+            "thorough: all <= 4) over 3 vertices, random 4-vertex (thorough 5-vertex) lists, x {-u} x {-a}, with vertex names from pools containing "
+            "a v_ prefix collision; the output is parsed by the real parser and Trace_Puzzle compares the models of the tree (Lang!Sem, bound "
+            "copies included), projected to vertex variables with unmentioned vertices free, with the reference cliques.",
+            "TLA+ specification of the puzzle + impl->spec trace validation using the denotational semantics"),
+    "C17": ("3.C17", "Puzzles!SudokuSolutions (cell-by-cell, independent index arithmetic). For r = 1, 2: sudoku_gen output for the empty grid, single hints, "
+            "random hint patterns incl. contradictory / full / short / over-long texts and 8 blank symbols incl. the quote is parsed by the real "
+            "parser; MC_Models decides exact model-set equality (search machine + Complete). r = 3: three solved grids satisfy the formula and "
+            "near misses (two cells of a unit swapped) falsify it (Trace_Puzzle).",
+            "TLA+ model checking (TLC search machine) of the emitted formula against the puzzle definition + trace validation"),
+    "C18": ("3.C18", "Puzzles!GraphOK/Feasible/ConvertSpec/KColourable. Every request V in 0..5 (quick: sampled above 3) x E in 0..V(V-1)+2 x {-u} x "
+            "{--complete} x {--dot} is executed 3 (thorough 12) times; every run is one event validated by Trace_Puzzle (exactly E distinct edges "
+            "between distinct v0..v(V-1), orientation rule, completeness, infeasible <=> exit 1 and empty output). --convert and --colors k on "
+            "small input graphs: ConvertSpec equality and 'covering clique exists <=> k-colourable' by brute force in TLC.",
+            "TLA+ specification of the requested graph + impl->spec trace validation of every run"),
+})
+
 PENDING_REASON = "machinery for this property is not built yet in this revision (planned in DESIGN.md section 3); no claim is made"
 
 ALL = ["C%02d" % i for i in range(1, 21)]
